@@ -734,6 +734,7 @@ pub fn decode_ipc(bytes: &[u8]) -> Result<Vec<RecordBatch>> {
     // (a corrupt body length otherwise turns into a terabyte allocation and
     // takes the node down), and turn any decoder panic on corrupt metadata
     // into an error — one bad peer answer must fail one query, not the process.
+    let bytes = verify_ipc_checksum(bytes)?;
     check_ipc_framing(bytes)?;
     match std::panic::catch_unwind(|| decode_ipc_checked(bytes)) {
         Ok(r) => r,
@@ -741,6 +742,30 @@ pub fn decode_ipc(bytes: &[u8]) -> Result<Vec<RecordBatch>> {
             "fragment result is corrupt: the Arrow IPC decoder rejected it".into(),
         )),
     }
+}
+
+/// Marks the 8-byte trailer `encode_ipc` appends: this tag, then the CRC-32
+/// (little-endian) of everything before the trailer.
+const IPC_CHECKSUM_TAG: &[u8; 4] = b"QEC1";
+
+/// Check and strip the trailer. The framing walk below only proves the
+/// message sizes are consistent; a damaged byte inside a value buffer is a
+/// perfectly well-framed stream that decodes to different rows, and merging it
+/// would hand the client a wrong answer instead of an error.
+fn verify_ipc_checksum(bytes: &[u8]) -> Result<&[u8]> {
+    let bad = |what: &str| QueryError::Execution(format!("fragment result is corrupt: {what}"));
+    if bytes.len() < 8 {
+        return Err(bad("the payload is shorter than its checksum trailer"));
+    }
+    let (stream, trailer) = bytes.split_at(bytes.len() - 8);
+    if &trailer[..4] != IPC_CHECKSUM_TAG {
+        return Err(bad("the checksum trailer is missing (payload cut short or damaged)"));
+    }
+    let declared = u32::from_le_bytes([trailer[4], trailer[5], trailer[6], trailer[7]]);
+    if crc32fast::hash(stream) != declared {
+        return Err(bad("the payload does not match its checksum"));
+    }
+    Ok(stream)
 }
 
 /// Walk the stream framing: `[0xFFFFFFFF] <metadata length> <metadata> <body>`
@@ -805,7 +830,8 @@ fn decode_ipc_checked(bytes: &[u8]) -> Result<Vec<RecordBatch>> {
     Ok(out)
 }
 
-/// Encode batches as an Arrow IPC stream.
+/// Encode batches as an Arrow IPC stream followed by a checksum trailer
+/// (`decode_ipc` is the only reader).
 pub fn encode_ipc(
     schema: &arrow::datatypes::SchemaRef,
     batches: &[RecordBatch],
@@ -822,6 +848,9 @@ pub fn encode_ipc(
         }
         w.finish()?;
     }
+    let crc = crc32fast::hash(&buf);
+    buf.extend_from_slice(IPC_CHECKSUM_TAG);
+    buf.extend_from_slice(&crc.to_le_bytes());
     Ok(buf)
 }
 
